@@ -109,6 +109,14 @@ def mc_job(name, module, cfgs, props, export=True, strict=True, cap_q=None, cap_
                 cfg_text = open(os.path.join(C.SPEC, cfgf)).read()
                 mcfg, paths, total = C.export_paths(res["text"])
                 res["paths_total"], res["paths_maximal"] = total, len(paths)
+                # vacuity check in place of TLC's -coverage (which does not terminate on these functional specifications): how often
+                # each action occurs in the exported behaviours of this configuration
+                counts = {}
+                for p_ in paths:
+                    for st_ in p_["steps"]:
+                        key_ = st_["a"] + ((":" + st_["call"]) if "call" in st_ else "") + (":from" if st_["a"] == "exchange" and "from" in st_ else "")
+                        counts[key_] = counts.get(key_, 0) + 1
+                res["action_counts"] = counts
                 cap = cap_q if tier == "quick" else cap_t
                 if len(paths) > cap:
                     # half of the budget goes to the behaviours that exercise most (distinct calls, actors, a disconnect followed by
